@@ -1562,7 +1562,9 @@ def crash_cross(seed, rounds=8):
         if how in ('direct', 'later'):
             lines.append('OP %d despawn %d' % (b, x))
         elif how == 'app':
-            for k in range(3):
+            # all three application systems (the earliest in the schedule wins: the entity is gone before most
+            # of the frame) or ONE of them (every scheduler position gets its turn over the attempts)
+            for k in (range(3) if r.random() < 0.5 else [r.randint(0, 2)]):
                 lines.append('OP %d appcmd %d despawn %d' % (b, k, x))
         if how != 'none' or kind == 'despawn':
             alive.remove(x)
